@@ -72,7 +72,15 @@ public:
 
 	~CCsvWriteObjectScope()
 	{
-		mCsvWriter->NextLine();
+		try
+		{
+			mCsvWriter->NextLine();
+		}
+		catch (...)
+		{
+			// Destructor must not throw (the program would be terminated), the error will be thrown at the end of saving
+			GetContext().SetDeferredError(std::current_exception());
+		}
 	}
 
 	/// <summary>
